@@ -14,7 +14,7 @@ META = {
             'change it, on every path, loop-agnostic); store lists only mutated by their owner; edges delegate once and pass the validated '
             'capacity; no failure exit after a reservation is consumed. Holds for every history because the obligations are per statement, not per run.',
             'DESIGN.md §4 C01'),
-    'C02': ('other', 'ast path summaries: symbolic object flow (multiset neutrality), binder/cancel index algebra, lock-step length deltas, closed mutator vocabulary of the holding/binding lists, no failure exit after an item was removed',
+    'C02': ('other', 'ast path summaries: symbolic object flow (multiset neutrality), binder/cancel index algebra, lock-step length deltas, closed mutator vocabulary of the holding/binding lists, no failure exit after an item was removed, identity equality of the flow-item classes (no __eq__ / dataclass)',
             'Necessary structural conditions of item conservation and distinct binding at store level (multiset neutrality of every entry point, '
             'wrap/unwrap agreement, binding discipline preserved by every mutator, lock-step of the binding lists). Decides those clauses, not the whole behaviour.',
             'DESIGN.md §4 C02'),
@@ -24,13 +24,13 @@ META = {
     'C04': ('other', 'ast path summaries: potential-based wake-up pairing (rise of free space / available items must be followed by the matching trigger); must-reach rule on the trigger functions (every completing path reaches the service loop unless the path conditions imply an empty queue)',
             'Every net rise of free-unreserved space or available-unreserved items inside an atomic segment is followed by the matching trigger call; '
             'service-loop shape; grant predicate equivalent to availability; every accepted put of a time-gated store arms its own re-trigger timer. Decides the pairing, not timer-driven gates.', 'DESIGN.md §4 C04'),
-    'C05': ('proof', 'ast shape rules: append + stable ascending sort on the request own priority (or bisect_right insertion), head-first service, order-preserving removals; a request served without queueing is accepted only when the path conditions imply an empty queue',
+    'C05': ('proof', 'ast shape rules: append + stable ascending sort on the request own priority (or bisect_right insertion), head-first service, order-preserving removals; a request served without queueing is accepted only when the path conditions imply an empty queue; identity equality of the request classes',
             'With list.sort stability the rules imply priority-then-FCFS service for the reservation queues and the priority request store.',
             'DESIGN.md §4 C05'),
     'C06': ('other', 'binder / cancellation index algebra (linear normal forms), data dependence of the bound item on the filter match, cancel-all-but-chosen typestate in nodes, selection predicate of the chosen token, constructor wiring of the buffer mode',
             'Necessary conditions of FIFO/LIFO/filter discipline: the binder picks the first (last) unreserved item, a cancellation re-inserts right after '
             '(below) the reserved block, the filter store binds the matched item, nodes cancel every token except the first triggered.', 'DESIGN.md §4 C06'),
-    'C07': ('proof', 'ast path summaries: validation dominates mutation; failure paths are effect-free and raise RuntimeError; success consumes the token',
+    'C07': ('proof', 'ast path summaries: validation dominates mutation; failure paths are effect-free and raise RuntimeError; success consumes the token; forbidden-construct scan for swallowed errors (return in finally, non-re-raising handler around a protocol call); constant-True result contract of put / cancel on every completing path',
             'For put/get/cancel of all 8 store classes: look-up of (token, active process) precedes every mutation, a failed look-up raises RuntimeError '
             'with no prior side effect, success removes the token. Sufficient for every misuse the statement enumerates.', 'DESIGN.md §4 C07'),
     'C08': ('other', 'path typestate of worker slots; data flow of the drawn processing delay to exactly one timeout',
@@ -38,31 +38,31 @@ META = {
             'Exact residence times are not decided.', 'DESIGN.md §4 C08'),
     'C09': ('other', 'path partition on the blocking flag: no discard on blocking paths, reserve dominated by can_put on non-blocking paths, definite assignment of the decision variable, loop-exit analysis of the first-available scan (exhausted vs. break)',
             'Necessary conditions only; same-instant races for the last slot are not decided.', 'DESIGN.md §4 C09'),
-    'C10': ('other', 'reservation-token typestate (used xor cancelled), cancel-loop completeness (guard, iterable not edited, result test not inverted), suspension-point whitelist',
+    'C10': ('other', 'reservation-token typestate (used xor cancelled), cancel-loop completeness (guard, iterable not edited, result test not inverted), suspension-point whitelist, who-may-call rule for item transfers (edge.get / edge.put, never the store handle)',
             'Every reservation token created by a node is used or cancelled exactly once on every path; no stray timed waits in pull/push regions. '
             'The instant-by-instant observer is not decided.', 'DESIGN.md §4 C10'),
     'C11': ('other', 'linear normal-form equivalence of can_put/can_get/occupancy with the store predicates; dominance of ready-list append by the item own delay timer; non-length conjuncts of the grant compared with what the query tests; path rule on get_delay (one fresh draw per call)',
             'can_put ≡ grant predicate, can_get ≡ |RG| < |A|, occupancy ≡ Σ held, ready append dominated by the timer of that item, delay drawn once.',
             'DESIGN.md §4 C11'),
-    'C12': ('other', 'control / data dependence of the belt put-grant on the entry time of the last entered item and the pace of the belt (dependence closure of opaque values); normalised product form of the travel delay; symbolic sum of the timed waits on undisturbed paths; grant count per sweep of the belt queue (grant function inlined, two iterations); constructor wiring of speed / slot delay',
+    'C12': ('other', 'control / data dependence of the belt put-grant on the entry time of the last entered item and the pace of the belt (dependence closure of opaque values); normalised product form of the travel delay; symbolic sum of the timed waits on undisturbed paths; grant count per sweep of the belt queue (grant function inlined, two iterations); constructor wiring of speed / slot delay; dependence of the spacing test on the interruption time of the last item; value flow of the Source item_length into every created flow item (path rule + constructor-chain argument binding)',
             'ONLY the structural clauses of C12: the spacing gate exists and refers to the last entered item (and an empty belt admits one entry per instant), the travel '
             'delay follows the documented formula, is stamped, stored with the item, identical for all items and waited in two phases that add up to it. '
             'Order of exit, actual spacing and travel times under interrupts are real-valued timer arithmetic and are NOT decided (see DESIGN.md §6).',
             'DESIGN.md §4 C12, §6'),
-    'C13': ('other', 'wait-without-signal scan; path rule with a symbolic clock: after an Interrupt the next travel wait lasts d − (t1 − t0) and follows a resume wait; truth-table check of the state dispatch; value/atom based accumulation gate; who-may-interrupt; sibling agreement of the stall-delay conversion; must-reach rule on the cancellation sweep of delayed interrupts; stale-event read; constructor wiring of the accumulating flag',
+    'C13': ('other', 'wait-without-signal scan; path rule with a symbolic clock: after an Interrupt the next travel wait lasts d − (t1 − t0) and follows a resume wait; truth-table check of the state dispatch; value/atom based accumulation gate; who-may-interrupt; sibling agreement of the stall-delay conversion; must-reach rule on the cancellation sweep of delayed interrupts; stale-event read; constructor wiring of the accumulating flag; who-may-call rule for set_conveyor_state (the belt process only)',
             'Structural necessary conditions of stall handling; kinematics are not decided.', 'DESIGN.md §4 C13'),
     'C14': ('other', 'control dependence of the capacity trigger, activation wait-set shape, two transit timeouts dominate the move, alias analysis of the batch iterable, batch fixed before the transit waits, exactly one suspension per activation cycle, constructor wiring edge → store (arguments bound against the store signature and resolved through single-valued attributes / locals)',
             'Structural necessary conditions of batch delivery; batch boundaries in time are not decided.', 'DESIGN.md §4 C14'),
-    'C15': ('other', 'selector-call counting per path, who-may-consult scan of the user policy, recorded-vs-used index data flow, range-check dominance, generator update normal form, wiring of policy names, value evaluation of the stored policy for representative arguments, fresh selector object per get_edge_selector call',
+    'C15': ('other', 'selector-call counting per path, who-may-consult scan of the user policy, recorded-vs-used index data flow, range-check dominance, generator update normal form, wiring of policy names, value evaluation of the stored policy for representative arguments, fresh selector object per get_edge_selector call, membership test dominating every registration of an edge in a node edge list',
             'Selector consulted once per item, recorded index = used index, range check dominates use, round-robin successor is (i+1) mod n.',
             'DESIGN.md §4 C15'),
     'C16': ('other', 'loop-bound flow recipe → reservations, counted drain loop invariant, pallet-last emission order, path rule over the pallet container operations',
             'Recipe count = reservation count = add_item count; pallet from edge 0; splitter drains then emits the pallet last.', 'DESIGN.md §4 C16'),
-    'C17': ('other', 'symbolic effect of the accounting functions (bucket[old state] += now − old stamp; tracked cells), single writer of state, stamp-before-first-wait path rule, path-wise partition check of the Machine state groups over sign classes, thread-state typestate (refresh after change, BLOCKED before a wait for room)',
+    'C17': ('other', 'symbolic effect of the accounting functions (bucket[old state] += now − old stamp; tracked cells), single writer of state, stamp-before-first-wait path rule, path-wise partition check of the Machine state groups over sign classes with the meaning of each state name, thread-state typestate (refresh after change, BLOCKED before a wait for room)',
             'Structural necessary conditions of state-time accounting; equality with time actually spent is not decided.', 'DESIGN.md §4 C17'),
-    'C18': ('other', 'level-updater pairing after every net occupancy change; polynomial identity of the updater effect (W\' = W + N·(now − T), T\' = now, N\' = Σ held); counter/event pairing with no suspension point in between; timestamp sources',
+    'C18': ('other', 'level-updater pairing after every net occupancy change; polynomial identity of the updater effect (W\' = W + N·(now − T), T\' = now, N\' = Σ held); counter/event pairing with no suspension point in between; timestamp sources; unconditional entry / exit stamps of the flow items',
             'Structural necessary conditions of truthful statistics; numerical equality with the true integral is not decided.', 'DESIGN.md §4 C18'),
-    'C19': ('other', 'forbidden-construct / taint scan (set iteration, id/hash/address-repr ordering incl. through attributes, unseeded entropy, wall clock, kernel clock writes) and shared-state analysis (module/class-level mutable objects mutated, aliased or shallow-copied into instance state) with canaries',
+    'C19': ('other', 'forbidden-construct / taint scan (set iteration incl. dict-view algebra, id/hash/address-repr ordering incl. through attributes, unseeded entropy, wall clock, kernel clock writes) and shared-state analysis (module/class-level mutable objects mutated, aliased or shallow-copied into instance state) with canaries',
             'Absence of the constructs that make runs irreproducible; run-to-run equality itself is not decided.', 'DESIGN.md §4 C19'),
     'C20': ('other', 'attribute-existence resolution, interface/dispatch exhaustiveness, progress of process cycles, documented validations judged by abstract evaluation over representative configurations, one-shot event discipline, first-iteration None dereference, re-arming of consumed events',
             'Structural necessary conditions of crash/livelock freedom; absence of all run-time exceptions is not decided.', 'DESIGN.md §4 C20'),
